@@ -109,8 +109,49 @@ func (c *canon) expr(x ast.Expr) string {
 	case *ast.StarExpr:
 		return "*" + c.expr(t.X)
 	case *ast.UnaryExpr:
+		// &T{} of a struct type is new(T)
+		if cl, ok := ast.Unparen(t.X).(*ast.CompositeLit); ok && t.Op == token.AND && len(cl.Elts) == 0 {
+			if ct := info.TypeOf(cl); ct != nil {
+				if _, isStruct := ct.Underlying().(*types.Struct); isStruct {
+					return "new(" + c.typ(ct) + ")"
+				}
+			}
+		}
 		return t.Op.String() + c.expr(t.X)
 	case *ast.BinaryExpr:
+		if t.Op == token.LAND || t.Op == token.LOR {
+			// a chain of operands none of which can panic or have an effect is order-insensitive: sorted
+			var ops []ast.Expr
+			var flat func(e ast.Expr)
+			flat = func(e ast.Expr) {
+				if b, ok := ast.Unparen(e).(*ast.BinaryExpr); ok && b.Op == t.Op {
+					flat(b.X)
+					flat(b.Y)
+					return
+				}
+				ops = append(ops, e)
+			}
+			flat(t)
+			all := true
+			for _, o := range ops {
+				all = all && c.total(o)
+			}
+			if all {
+				var ss []string
+				for _, o := range ops {
+					ss = append(ss, c.expr(o))
+				}
+				sort.Strings(ss)
+				out := ss[0]
+				for _, x := range ss[1:] {
+					out = "(" + out + " " + t.Op.String() + " " + x + ")"
+				}
+				if len(ss) == 1 {
+					out = "(" + out + ")"
+				}
+				return out
+			}
+		}
 		return "(" + c.expr(t.X) + " " + t.Op.String() + " " + c.expr(t.Y) + ")"
 	case *ast.IndexExpr:
 		return c.expr(t.X) + "[" + c.expr(t.Index) + "]"
@@ -161,6 +202,12 @@ func (c *canon) expr(x ast.Expr) string {
 			}
 			return c.typ(tv.Type) + "(" + a + ")"
 		}
+		// Value.MapKey() is the conversion MapKey(Value) (protoreflect: "MapKey returns v as a MapKey")
+		if sel, ok := t.Fun.(*ast.SelectorExpr); ok && len(t.Args) == 0 && sel.Sel.Name == "MapKey" {
+			if fn, ok := info.Uses[sel.Sel].(*types.Func); ok && fn.FullName() == "(google.golang.org/protobuf/reflect/protoreflect.Value).MapKey" {
+				return c.typ(info.TypeOf(t)) + "(" + c.expr(sel.X) + ")"
+			}
+		}
 		var args []string
 		for _, a := range t.Args {
 			args = append(args, c.expr(a))
@@ -206,7 +253,7 @@ func (c *canon) stmts(list []ast.Stmt) string {
 				if len(t.Lhs) == 1 && len(t.Rhs) == 1 {
 					if id, ok := t.Lhs[0].(*ast.Ident); ok {
 						o := c.info.Defs[id]
-						if o != nil && c.assignedOnce(o, list[i+1:]) && (!allocates(t.Rhs[0]) || c.useCount(o, list[i+1:]) == 1) {
+						if o != nil && c.assignedOnce(o, list[i+1:]) && (!c.identityMatters(t.Rhs[0]) || c.useCount(o, list[i+1:]) == 1) {
 							c.subst[o] = c.expr(t.Rhs[0])
 							continue
 						}
@@ -312,6 +359,77 @@ func (c *canon) stmts(list []ast.Stmt) string {
 		}
 	}
 	return strings.Join(parts, "; ")
+}
+
+// total: evaluating the expression cannot panic and has no effect — a variable, a constant, a package-level name, or
+// a comparison of such a thing with nil or a constant, possibly negated.
+func (c *canon) total(x ast.Expr) bool {
+	x = ast.Unparen(x)
+	if tv, ok := c.info.Types[x]; ok && tv.Value != nil {
+		return true
+	}
+	switch t := x.(type) {
+	case *ast.Ident:
+		return true
+	case *ast.SelectorExpr:
+		if id, ok := t.X.(*ast.Ident); ok {
+			_, isPkg := c.info.Uses[id].(*types.PkgName)
+			return isPkg
+		}
+	case *ast.UnaryExpr:
+		return t.Op == token.NOT && c.total(t.X)
+	case *ast.BinaryExpr:
+		switch t.Op {
+		case token.EQL, token.NEQ, token.LSS, token.GTR, token.LEQ, token.GEQ:
+			isConst := func(e ast.Expr) bool {
+				tv, ok := c.info.Types[e]
+				return ok && (tv.Value != nil || tv.IsNil())
+			}
+			return (c.total(t.X) && isConst(t.Y)) || (isConst(t.X) && c.total(t.Y))
+		}
+	}
+	return false
+}
+
+// identityMatters: duplicating the expression could change the meaning — it allocates, or it calls something that is
+// not known to be a pure function of its operands (conversions, len/cap, protoreflect.ValueOf*, the accessors of
+// protoreflect.Value, ProtoReflect()/Interface() of fast-reflection types are).
+func (c *canon) identityMatters(x ast.Expr) bool {
+	if allocates(x) {
+		return true
+	}
+	found := false
+	ast.Inspect(x, func(n ast.Node) bool {
+		call, ok := n.(*ast.CallExpr)
+		if !ok {
+			return true
+		}
+		if tv, ok := c.info.Types[call.Fun]; ok && tv.IsType() {
+			return true
+		}
+		switch f := call.Fun.(type) {
+		case *ast.Ident:
+			if _, isB := c.info.Uses[f].(*types.Builtin); isB && (f.Name == "len" || f.Name == "cap") {
+				return true
+			}
+		case *ast.SelectorExpr:
+			if fn, ok := c.info.Uses[f.Sel].(*types.Func); ok {
+				full := fn.FullName()
+				switch {
+				case strings.HasPrefix(full, "google.golang.org/protobuf/reflect/protoreflect.ValueOf"),
+					strings.HasPrefix(full, "(google.golang.org/protobuf/reflect/protoreflect.Value)."),
+					strings.HasPrefix(full, "(google.golang.org/protobuf/reflect/protoreflect.MapKey)."),
+					strings.HasPrefix(full, "math."):
+					return true
+				case fn.Name() == "ProtoReflect" || fn.Name() == "Interface" || fn.Name() == "Descriptor":
+					return true
+				}
+			}
+		}
+		found = true
+		return true
+	})
+	return found
 }
 
 // allocates: the expression creates new memory (its identity matters, so it is never duplicated by substitution).
